@@ -465,8 +465,9 @@ def run_trees(run: Run, trees, label=""):
 def main(run: Run):
     all_counts = collections.Counter()
     total = 0
+    only = getattr(run, "only", None)  # debug: --only fam1,fam2 restricts the families (never used for verdicts)
     for label, it in families(run):
-        trees = list(it)
+        trees = [(f, t) for f, t in it if not only or f in only]
         total += len(trees)
         run.count("expressions_generated", len(trees))
         fc, rej = run_trees(run, trees, label)
@@ -477,8 +478,11 @@ def main(run: Run):
     fams = sorted({f for f, _ in all_counts})
     run.coverage_extra["per_family"] = {f: {st: all_counts[(f, st)] for st in ("ok", "violation", "rejected", "skipped")
                                             if all_counts[(f, st)]} for f in fams}
+    if only:
+        run.capped = True
+        run.note(f"restricted to families {sorted(only)} (debug run)")
     acc = run.counters.get("expressions_ok", 0) + run.counters.get("expressions_violation", 0)
-    if acc * 2 < total or run.counters.get("evaluations", 0) < 1000:
+    if acc * 2 < total or (run.counters.get("evaluations", 0) < 1000 and not only):
         run.tool_error(f"vacuous: {acc} of {total} expressions accepted, {run.counters.get('evaluations', 0)} evaluations")
     for f in fams:
         if all_counts[(f, "ok")] + all_counts[(f, "violation")] == 0:
